@@ -61,8 +61,9 @@ class Cons(fm.TimeComponent):
         self._name = name
         self._time = day(0)
         info = dict(time=None, grid=fm.NoGrid(), units=None)
-        if leaf == "push":
-            self.inputs.add(fm.CallbackInput(callback=lambda _c, _t: None, name="In", **info))
+        if leaf in ("push", "pushstatic"):
+            self.inputs.add(fm.CallbackInput(callback=lambda _c, _t: None, name="In",
+                                             static=(leaf == "pushstatic"), **info))
         else:
             self.inputs.add(name="In", static=(leaf == "static"), **info)
         if extra:
@@ -128,9 +129,8 @@ def run_case(case):
     counter = Counter()
     src = Src(case["src"], counter)
     cons1 = Cons("cons1", case["leaf"], case["unconn"])
-    branch = case["br"] >= 0
-    cons2 = Cons("cons2", case["leaf2"], False) if branch else None
-    comps = ([src] if case["srcIn"] else []) + ([cons1] if case["leafIn"] else []) + ([cons2] if branch else [])
+    extra = [Cons(f"cons{k + 2}", b["leaf"], False) for k, b in enumerate(case["brs"])]
+    comps = ([src] if case["srcIn"] else []) + ([cons1] if case["leafIn"] else []) + extra
     memdir = tempfile.mkdtemp(prefix="fv-mem-")
     obs = {"res": "ok", "pushes": 0, "nlinks": 0, "linksok": True}
     try:
@@ -146,14 +146,14 @@ def run_case(case):
             nodes.append(ada)
         nodes[-1] >> cons1.inputs["In"]  # pylint: disable=pointless-statement
         created = len(case["chain"]) + 1
-        if branch:
-            cur = nodes[case["br"]]
-            for k in case["chain2"]:
+        for b, cons in zip(case["brs"], extra):      # branches are linked in the listed order
+            cur = nodes[b["at"]]
+            for k in b["chain"]:
                 ada = make(k)
                 cur >> ada  # pylint: disable=pointless-statement
                 cur = ada
-            cur >> cons2.inputs["In"]  # pylint: disable=pointless-statement
-            created += len(case["chain2"]) + 1
+            cur >> cons.inputs["In"]  # pylint: disable=pointless-statement
+            created += len(b["chain"]) + 1
         try:
             composition.connect(day(0))
             links = composition.metadata["links"]
